@@ -160,6 +160,8 @@ type Render struct {
 	Shuffle    bool
 	Escapes    bool
 	NegZero    bool
+	// Solidus writes every "/" as "\/" and nothing else differently (what PHP's json_encode does by default)
+	Solidus bool
 }
 
 // Scramble returns a renderer with every presentation freedom on.
@@ -283,6 +285,9 @@ func (p *Render) str(out []byte, s string) []byte {
 		}
 		choice := 0 // 0 raw, 1 short, 2 \u
 		if !p.Escapes {
+			if p.Solidus && r == '/' {
+				choice = 1
+			}
 			if mustEscape {
 				if short != 0 {
 					choice = 1
